@@ -260,6 +260,8 @@ class World:
             return lambda x: x[spec["name"]]
         if c == "badlen":
             return lambda x: np.arange(x.nrow + 2)
+        if c == "boolcol":
+            return lambda x: x[spec["name"]]       # hands the receiver's own boolean column back
         if c == "nrow":
             return lambda x: x.nrow
         if c == "group_vec":
@@ -382,7 +384,7 @@ class World:
             data = {}
             for name, dtype, values in cols:
                 if dtype == "scalar":
-                    data[name] = values
+                    data[name] = values[6:].encode() if isinstance(values, str) and values.startswith("bytes:") else values
                 elif dtype == "pylist":
                     data[name] = list(values)
                 else:
@@ -412,6 +414,8 @@ class World:
                 if dtype == "scalar" and n >= 1 and name in res:
                     self.probes["broadcast_scalar"] += 1
                     got = M.col_values(res[name])
+                    if isinstance(values, str) and values.startswith("bytes:"):
+                        values = values[6:].encode()
                     if len(got) != n or any(g != values for g in got):
                         self.viol("C01", "broadcast", "C01.broadcast|new|scalar-not-broadcast",
                                   f"scalar {values!r} stored as {got!r} for nrow {n}")
@@ -457,11 +461,24 @@ class World:
     def op_filter(self, op, name="filter"):
         h = op["t"]
         f = self.frames[h]
-        if "mask" in op:
+        if "mask" in op and "kv" in op:
+            mask = np.array(op["mask"], bool)
+            before = mask.copy()
+            kv = {k: self.build_value(v) for k, v in op["kv"].items()}
+
+            def call():
+                try:
+                    return getattr(f, name)(mask, **kv)
+                finally:
+                    if not np.array_equal(mask, before):
+                        self.viol("C06", "mutate", f"C06.mutate|{name}|argument-mask-changed",
+                                  f"{name}(mask, **{op['kv']}) wrote into the caller's mask array")
+        elif "mask" in op:
             call = lambda: getattr(f, name)(np.array(op["mask"], bool))
         elif "fn" in op:
             fn = self.frame_callable(op["fn"])
-            call = lambda: getattr(f, name)(fn)
+            kv2 = {k: self.build_value(v) for k, v in (op.get("kv") or {}).items()}
+            call = lambda: getattr(f, name)(fn, **kv2)
         else:
             kv = {k: self.build_value(v) for k, v in op["kv"].items()}
             call = lambda: getattr(f, name)(**kv)
@@ -999,8 +1016,11 @@ class World:
                 self.removed[h].discard(n)
             self.check_pool(op, changed, False, {h})
         else:
+            if not expect_reject:
+                self.viol("C01", "inplace", f"C01.inplace|{kind}|raises-{type(err).__name__}",
+                          f"in-place {kind} raised {err!r} on defined input: {self.brief(op)}")
             # a rejected in-place edit must leave every frame unchanged
-            self.check_pool(op, set(), False if expect_reject else True, {h})
+            self.check_pool(op, set(), False, {h})
         return {"raised": type(err).__name__ if err else None, "res": res}
 
     def op_setitem(self, op):
@@ -1140,10 +1160,15 @@ class World:
         if not defined:
             by_obj = {id(dict.__getitem__(f, n)): self.bufs[h].get(n) for n in old}
             keep = [dict.__getitem__(f, n) for n in old]        # keep ids alive
+            snap0 = M.snap_frame(f)
             try:
-                f.colnames = new
-            except Exception:
-                pass
+                f.colnames = op["names"]
+            except Exception as e:
+                # undefined input may be rejected - but then nothing may have been changed
+                if M.snap_frame(f) != snap0:
+                    self.viol("C01", "reject", "C01.reject|set_colnames|rejected-assignment-changed-the-frame",
+                              f"colnames = {op['names']!r} on {old!r} raised {e!r} and left the frame "
+                              f"with columns {list(dict.keys(f))!r}")
             # undefined (too short / duplicates): adopt whatever well-formed state results;
             # columns that are still the same objects keep their buffer ids
             self.names[h] = list(dict.keys(f))
@@ -1460,7 +1485,7 @@ class Gen:
               "how": r.choice(["kwargs", "kwargs", "dict", "pairs"])}
         x = r.random()
         if cols and n >= 1 and x < 0.2:
-            cols.append([self.new_name(), "scalar", r.choice([1, 2.5, "s", True])])
+            cols.append([self.new_name(), "scalar", r.choice([1, 2.5, "s", True, "bytes:abcdef"])])
             op["cols"] = [c for i, c in enumerate(cols) if c[0] not in [d[0] for d in cols[:i]]]
         elif cols and x < 0.2 + self.fault_rate and n not in (1,):
             bad_n = r.choice([k for k in (n + 1, n + 2, 0) if k not in (n, 1)])
@@ -1515,10 +1540,16 @@ class Gen:
                 col = dict.__getitem__(f, name)
                 vals = M.col_values(col)
                 v = r.choice(vals) if vals and r.random() < 0.7 else 1
-                if isinstance(v, (list, dict)) or v is None or col.dtype.kind == "M":
+                if isinstance(v, (list, dict, bytes)) or v is None or col.dtype.kind in "MmS":
                     op["mask"] = [r.random() < 0.5 for _ in range(n)]
                 else:
                     op["kv"] = {name: {"kind": "scalar", "value": v}}
+                    y = r.random()
+                    bools = [c for c in cols if dict.__getitem__(f, c).dtype.kind == "b"]
+                    if y < 0.2:
+                        op["mask"] = [r.random() < 0.5 for _ in range(n)]        # rows AND col=value
+                    elif y < 0.35 and bools:
+                        op["fn"] = {"c": "boolcol", "name": r.choice(bools)}
         return op
 
     def g_filter_out(self):
@@ -1782,6 +1813,8 @@ class Gen:
                     used.add(n)
                     new.append(n)
             op["names"] = new
+        elif r.random() < 0.25:
+            op["names"] = ["t%d" % i for i in range(len(cols) + r.choice([1, 2]))]     # too long
         else:
             k = r.randint(0, max(0, len(cols) - 1))
             fresh = [n for n in ["s1", "s2", "s3", "s4", "s5", "s6", "s7", "s8"] if n not in cols]
